@@ -260,6 +260,40 @@ CHECKS = {
 NOT_YET = {}
 
 
+# coordinates added by the seeded-defect waves (appended to the level text of the check)
+EXTRA = {
+    "C01": "Also: ambient grad mode / default dtype / memory layout / value magnitude environments, every single deviation "
+           "called all-positional (documented order), all-keyword and with ints for integral floats, unimplemented values of "
+           "implemented options (reduction='none').",
+    "C02": "Also: requires_grad patterns (one operand frozen at a time), call forms as in C01, dtype call histories in fresh "
+           "interpreters; low-precision proportionality is skipped only where the float64 twin of the same reference shows the "
+           "reference gradient itself is rounding noise.",
+    "C03": "Also: one operand frozen at a time, padding rows, low-precision-first call histories in fresh interpreters.",
+    "C04": "Also: cross-attention length pairs (output clause) and six factorisations of each normalised width.",
+    "C05": "Also: module level - every module taking a constraint x every forward path (Conv1d padding modes) against its functional form.",
+    "C06": "Also: trainable / constant / detached / no_grad branches, a stream that does not require grad (branch parameter gradients "
+           "against the closed form divided by the enclosing branch weights), float32 branches, low-precision call histories.",
+    "C08": "Also: modules after deepcopy, pickle, state-dict rebuild, float()->double(), positional constructor arguments, shape as int; "
+           "torch twin evaluated at the documented temperature.",
+    "C09": "Also: an in-place write operation; every earlier object of a history keeps its values and its storage.",
+    "C10": "Also: parameters sharing (tag, shape) but not depth inside one call.",
+    "C11": "Also: frozen parameters, tied storage (distinct Parameter objects), zero-element parameters, second calls on the caller's groups.",
+    "C12": "Also: layers inside blocks, containers of prototype clones, copies of copies, the same layer object repeated, parameters "
+           "frozen when the optimizer is built, int / tensor learning rates.",
+    "C14": "Also: six memory layouts for the one-draw-per-element oracle, no_grad / inference_mode / requires-grad inputs, "
+           "srbits / rounding-mode call histories in fresh interpreters, float16 / bfloat16 / float64 inputs.",
+    "C15": "Also: float64 / bfloat16 modules, every float32 exponent through the straight-through primitives, operands passed by keyword, "
+           "two-format and nested-transform histories.",
+    "C16": "Also: every tensor operand by keyword inside residual branches, DAG towers, an earlier unit_scale(..., replace=) call in a fresh process.",
+    "C17": "Also: a parameter frozen at transform time, intermediates trained in place between nestings, float64 / bfloat16 modules.",
+    "C18": "Also: recompilation to a smaller / larger graph, second-order differentiation, analyse_module(recurse_modules=False) with an "
+           "annotation-completeness oracle, frozen parameters and buffers.",
+    "C19": "Also: scale ratios inside / outside the tolerance window, chains of non-float nodes, repeated operands.",
+    "C20": "Also: all pairs of hyperparameter deviations, one operand frozen at a time, plain fx tracing of every function configuration "
+           "to 4 ulp and at width 256-4096, regions returning several scaled aliases.",
+}
+
+
 def main() -> None:
     props = [json.loads(l) for l in open(os.path.join(HERE, "properties.jsonl"))]
     checks = []
@@ -268,6 +302,8 @@ def main() -> None:
         pid = p["id"]
         if pid in CHECKS:
             tech, text, note, ref = CHECKS[pid]
+            if pid in EXTRA:
+                text = text.rstrip() + " " + EXTRA[pid]
             checks.append(
                 {
                     "property_id": pid,
